@@ -10,7 +10,7 @@
    fragment: a map entry that is a struct held by value has scalar/string/bytes fields only, no
    []byte and no map held by value as slice element, no []byte as map value. *)
 From Coq Require Import List Bool String Ascii ZArith Arith Floats.SpecFloat.
-From Verif Require Import Util Ints Floats Node GoSrc Value Outcome Nav LCSound SetEmit SetSpec SetSound SetMono SetGet Shapes GenUnits GenC03.
+From Verif Require Import Util Ints Floats Node GoSrc Value Outcome Nav LCSound SetEmit SetSpec SetSound SetMono SetGet Shapes GenUnits GenC03 GenC03x.
 Import ListNotations.
 Local Open Scope string_scope.
 
@@ -65,7 +65,8 @@ Print Assumptions C03_no_panic.
 
 (* Outside the sound fragment the (repaired) emitter still loses updates: below a non-scalar field
    of a struct that is held BY VALUE in a map the assignment goes to a copy of the entry that is
-   never stored back.  (No generated unit of the stream has this shape.) *)
+   never stored back.  (Open finding nested_in_map_entry: the stream c03x runs the real generated
+   inspectors of two such types, Gen/GenC03x.v, and observes exactly this.) *)
 Theorem C03_refuted_nested_in_map_entry : exists n v path s,
   wfn n = true /\ root_ok n = true /\ wtb n v = true /\ sound_set n = false /\
   set_method n v path s true = Ret v None /\
@@ -82,6 +83,11 @@ Print Assumptions C03_refuted_nested_in_map_entry.
    correspondence stream runs the generated code of) is in the sound fragment. *)
 Example C03_units_sound :
   forallb (fun u => wfn (root_node u) && sound_set (root_node u) && root_ok (root_node u)) (supported_units 0) = true.
+Proof. vm_compute. reflexivity. Qed.
+
+(* the two own units of the stream c03x are well-formed and outside the sound fragment *)
+Example C03_xunits_unsound :
+  forallb (fun u => wfn (root_node u) && root_ok (root_node u) && negb (sound_set (root_node u))) xunits = true.
 Proof. vm_compute. reflexivity. Qed.
 
 (* set then get, frame, creation on the path - on a concrete object *)
